@@ -127,6 +127,7 @@ def reset():
     _table.clear()
     _CT.clear()
     _L1.clear()
+    _CMP.clear()
 
 
 TRUE = True      # boolean constants are the Python singletons
@@ -228,7 +229,7 @@ def _srem(a, b, n):
 
 
 _CT = {}
-CT_MAX = 64
+CT_MAX = 160
 
 
 def _ctree(t):
@@ -288,6 +289,64 @@ def leaves(t):
     return out
 
 
+_CMP = {}
+
+
+def compact(t):
+    """constant tree with one leaf per DISTINCT value (a decision list over `t == v` conditions). Arithmetic on positions
+    multiplies leaf counts although the set of values stays small (0..len); compaction keeps such terms inside the
+    constant-tree fragment, so that value sets (case splits, folding of comparisons) survive."""
+    n = _ctree(t)
+    if n < 2:
+        return t
+    r = _CMP.get(t.id)
+    if r is not None:
+        return r
+    vs = sorted(leaves(t))
+    if len(vs) >= n:
+        r = t
+    else:
+        r = BitVecVal(vs[-1], t.srt)
+        for v in reversed(vs[:-1]):
+            cv = BitVecVal(v, t.srt)
+            r = If(Eq(t, cv), cv, r)
+    _CMP[t.id] = r
+    return r
+
+
+def _compact2(a, b):
+    """both operands compacted when their leaf product is too large; returns operands (possibly unchanged)"""
+    ca, cb = _ctree(a), _ctree(b)
+    if ca and cb and ca * cb > CT_MAX:
+        a2, b2 = compact(a), compact(b)
+        if _ctree(a2) * _ctree(b2) <= CT_MAX:
+            return a2, b2
+    return a, b
+
+
+def _bin_by_values(op, a, b):
+    """a op b for two constant trees whose leaf product is too large to lift: computed per pair of VALUES and returned
+    as a decision list with one leaf per distinct result (sums of positions have few distinct values)"""
+    va, vb = sorted(leaves(a)), sorted(leaves(b))
+    if len(va) * len(vb) > 4096:
+        return None
+    n = a.srt
+    conds = {}
+    for x in va:
+        ex = Eq(a, BitVecVal(x, n))
+        for y in vb:
+            v = _FOLD[op](x, y, n)
+            c = And(ex, Eq(b, BitVecVal(y, n)))
+            conds[v] = Or(conds[v], c) if v in conds else c
+    if len(conds) > CT_MAX:
+        return None
+    vs = sorted(conds)
+    r = BitVecVal(vs[-1], n)
+    for v in reversed(vs[:-1]):
+        r = If(conds[v], BitVecVal(v, n), r)
+    return r
+
+
 _L1 = {}
 
 
@@ -318,7 +377,12 @@ def _bin(op, a, b):
     if a.op == 'bv' and b.op == 'bv':
         return BitVecVal(_FOLD[op](a.p, b.p, n), n)
     if (a.op == 'ite' or b.op == 'ite') and op in ('bvadd', 'bvsub', 'bvmul', 'bvand', 'bvor'):
+        a, b = _compact2(a, b)
         ca, cb = _ctree(a), _ctree(b)
+        if ca and cb and ca * cb > CT_MAX:
+            r = _bin_by_values(op, a, b)
+            if r is not None:
+                return r
         if ca and cb and ca * cb <= CT_MAX:
             return _lift2(lambda x, y: _bin(op, x, y), op, a, b)
     if op == 'bvadd':
@@ -372,6 +436,7 @@ def _cmp(op, a, b):
     if a.op == 'bv' and b.op == 'bv':
         return BoolVal(_CMPF[op](a.p, b.p, a.srt))
     if a.op == 'ite' or b.op == 'ite':
+        a, b = _compact2(a, b)
         ca, cb = _ctree(a), _ctree(b)
         if ca and cb and ca * cb <= CT_MAX:
             return _lift2(lambda x, y: _cmp(op, x, y), op, a, b)
@@ -436,6 +501,7 @@ def Eq(a, b):
         return FALSE   # distinct constants (hash-consed)
     elif a.op == 'ite' or b.op == 'ite':
         # eq over constant trees folds into a condition over the selectors
+        a, b = _compact2(a, b)
         ca, cb = _ctree(a), _ctree(b)
         if ca and cb and ca * cb <= CT_MAX:
             return _lift2(lambda x, y: x is y, '=', a, b)
@@ -526,6 +592,17 @@ def If(c, a, b):
         a = a.args[1]
     if a is b:
         return a
+    if a.srt != 0:
+        ca, cb = _ctree(a), _ctree(b)
+        if ca and cb and ca + cb > CT_MAX:
+            # one leaf per distinct value keeps the merged term a constant tree
+            vs = sorted(leaves(a) | leaves(b))
+            if len(vs) <= CT_MAX:
+                r = BitVecVal(vs[-1], a.srt)
+                for v in reversed(vs[:-1]):
+                    cv = BitVecVal(v, a.srt)
+                    r = If(If(c, Eq(a, cv), Eq(b, cv)), cv, r)
+                return r
     return _mk('ite', (c, a, b), a.srt)
 
 
